@@ -128,6 +128,7 @@ package index
 //@   modifies wn(w)
 //@   call[binary.Write#0] assert code_field [C11]: binsize(arg2) == 8
 //@   ensures count [C11]: err == nil && wn(w) - old(wn(w)) < 4611686018427387904 ==> result0 == wn(w) - old(wn(w))
+//@   ensures mono [C11,C16]: wn(w) >= old(wn(w))
 
 //@ func (*MultihashIndexSorted).Marshal
 //@   implements (github.com/ipld/go-car/v2/index.Index).Marshal
